@@ -114,6 +114,26 @@ pub fn with_poison(ops: Vec<Op>) -> Vec<Op> {
     out
 }
 
+/// Base states on geometries that cross the 255/256 boundary in one dimension: light
+/// fills, cursors / regions around the boundary. Used by the E2 checks for a depth-1 sweep
+/// with the boundary-value parameter domain (pdom switches automatically).
+pub fn large_bases(c: &Collector, fills: Vec<Fill>) -> Vec<Base> {
+    let spec = Spec {
+        geoms: vec![(260, 3), (3, 260)],
+        fills,
+        cursors: CursorSel::Boundary,
+        regions: RegionSel::Some,
+        modesets: vec![0, M_DECOM | M_IRM, M_DECAWM_OFF | M_LNM],
+        renditions: vec![vec![]],
+        stacks: vec![0],
+        charsets: default_charsets(),
+        hidden_cursor: false,
+    };
+    let b = gen_bases(c, &spec);
+    c.count("large_geometry_bases", b.len() as u64);
+    b
+}
+
 // =====================================================================  C05
 pub fn c05_ops(b: &Base) -> Vec<Op> {
     let (c, l) = (b.columns, b.lines);
@@ -197,6 +217,11 @@ pub fn c05(c: &Collector, g: &mut Guard) {
     sweep(c, &pbases, c05_parser_ops, |c, t, local| {
         local.count("parser_path_transitions");
         refine_all(c, "C05", "E2.depth1.parser", t, local);
+    });
+    let lb = large_bases(c, vec![Fill::F0]);
+    sweep(c, &lb, c05_ops, |c, t, local| {
+        local.count("large_geometry_transitions");
+        refine_all(c, "C05", "E2.depth1.large", t, local);
     });
     if c.thorough() {
         // 80x24 corners
@@ -283,6 +308,11 @@ pub fn c07(c: &Collector, g: &mut Guard) {
     sweep(c, &bases, c07_ops, |c, t, local| {
         refine_all(c, "C07", "E2.depth1", t, local);
     });
+    let lb = large_bases(c, vec![Fill::F0, Fill::F1]);
+    sweep(c, &lb, c07_ops, |c, t, local| {
+        local.count("large_geometry_transitions");
+        refine_all(c, "C07", "E2.depth1.large", t, local);
+    });
     c.bound("geometries", json!(spec.geoms));
     c.bound("selectors", json!("{absent,0,1,2,3,4,5,9999}; ECH counts {absent,0,1..max+2,9999}"));
     g.need(c, "pre_pending_wrap");
@@ -324,6 +354,11 @@ pub fn c13(c: &Collector, g: &mut Guard) {
     sample_bases(c, &bases, &c13_ops);
     sweep(c, &bases, c13_ops, |c, t, local| {
         refine_all(c, "C13", "E2.depth1", t, local);
+    });
+    let lb = large_bases(c, vec![Fill::F0, Fill::F1]);
+    sweep(c, &lb, c13_ops, |c, t, local| {
+        local.count("large_geometry_transitions");
+        refine_all(c, "C13", "E2.depth1.large", t, local);
     });
     // depth-k BFS: all ICH/DCH/IRM-draw/EL/resize interleavings on the same row
     let depth = if c.thorough() { 5 } else { 4 };
@@ -407,13 +442,15 @@ pub fn c06_ops(b: &Base) -> Vec<Op> {
         Op::Feed(vec!["\x0c".into()], true),
         Op::Feed(vec!["\n".into()], true),
     ];
-    let dom: Vec<P> = {
+    let dom: Vec<P> = if l <= 24 {
         let mut d = vec![None, Some(0)];
         for i in 1..=(l + 1) {
             d.push(Some(i));
         }
         d.push(Some(9999));
         d
+    } else {
+        pdom(1, l)
     };
     for p in &dom {
         v.push(Op::Il(*p));
@@ -456,6 +493,11 @@ pub fn c06(c: &Collector, g: &mut Guard) {
     sample_bases(c, &bases, &c06_ops);
     sweep(c, &bases, c06_ops, |c, t, local| {
         refine_all(c, "C06", "E2.depth1", t, local);
+    });
+    let lb = large_bases(c, vec![Fill::F0, Fill::F2]);
+    sweep(c, &lb, c06_ops, |c, t, local| {
+        local.count("large_geometry_transitions");
+        refine_all(c, "C06", "E2.depth1.large", t, local);
     });
     // autowrap at the bottom margin (draw at the pending-wrap column)
     let wbases: Vec<Base> = bases.iter().filter(|b| b.screen.cursor.x == b.columns).cloned().collect();
@@ -569,6 +611,11 @@ pub fn c04(c: &Collector, g: &mut Guard) {
     sample_bases(c, &bases, &c04_ops);
     sweep(c, &bases, c04_ops, |c, t, local| {
         refine_all(c, "C04", "E2.depth1", t, local);
+    });
+    let lb = large_bases(c, vec![Fill::F0, Fill::F1]);
+    sweep(c, &lb, c04_ops, |c, t, local| {
+        local.count("large_geometry_transitions");
+        refine_all(c, "C04", "E2.depth1.large", t, local);
     });
     let depth = if c.thorough() { 4 } else { 3 };
     let bgeoms: Vec<(u32, u32)> = if c.thorough() { vec![(3, 2), (2, 2), (4, 2)] } else { vec![(3, 2)] };
